@@ -271,6 +271,23 @@ class NBuilder(object):
                 return bool(anonymous)
         m.current_user = _U()
 
+    def gcode_table(self):
+        isnone = self.model.get("entry.isnone", False)
+        mode = self.model.get("entry.mode")
+        mode = mode.get("str") if isinstance(mode, dict) else (mode if isinstance(mode, str) else "merge")
+        if self.rnd is not None:
+            isnone = self.rnd.random() < 0.3
+            mode = self.rnd.choice(["exclude", "first", "last", "merge"])
+        cls = find_class(self.pkg, "ExcludedGcode")
+        table = {}
+
+        class _T(dict):
+            def get(self_inner, k, dflt=None):
+                if isnone:
+                    return dflt
+                return cls(k, mode, "configured")
+        return _T()
+
     def plugin_manager(self):
         return NPluginManager()
 
